@@ -138,6 +138,39 @@ func runLBCB(x *X) {
 			continue
 		}
 		class := classes[c.Intn(len(classes), "class")]
+		// a trial the client walks away from while the backend has not answered: whatever the
+		// breaker makes of it (a failure, or nothing), it is not a success
+		if (mode == "probing" || (mode == "open" && x.Now() > openedAfter+timeout)) && c.Intn(4, "cancelled-trial") == 0 {
+			steps = append(steps, "cancelled-trial")
+			x.Fault("client-cancel")
+			if mode == "open" {
+				mode, succ = "probing", 0
+			}
+			var r simResult
+			if !x.Do("req", func() {
+				r = h.do(reqSpec{client: "192.0.2.1", plan: &reqPlan{mode: "ok", delay: 5 * time.Second}, cancelAfter: 200 * time.Millisecond})
+			}, onErr) {
+				break
+			}
+			if !dispatched(r.id) {
+				continue // 429 / 503: not a trial
+			}
+			r2, ok2 := doReq("s500")
+			if !ok2 {
+				break
+			}
+			switch {
+			case dispatched(r2.id):
+				fails = nil
+				x.Probe("trial-failed")
+				if !mustBeOpen("a failed half-open trial after a cancelled one") {
+					break
+				}
+			case r2.status == 503:
+				mode, openedAfter, fails = "open", x.Now(), nil
+			}
+			continue
+		}
 		steps = append(steps, class)
 		if class != "ok" {
 			x.Fault("backend-" + class)
